@@ -179,6 +179,29 @@ let respond (line : String.t) : String.t =
     (match parse_groups (parse_term grouping) with
      | None -> "unparsed"
      | Some gs -> string_of_int (nat_to_int (gi_diagnose (kids (parse_term blocks)) gs)))
+  | [ "canon"; b ] -> show_term (canon (parse_term b))
+  | [ "ren_by"; orig; canonical ] ->
+    (* the resolver alone, driven by the position map read off the rewritten generics list *)
+    let orig = parse_term orig and canonical = parse_term canonical in
+    let gps t = (match t with Node (_, Node (_, gps) :: _) -> gps | _ -> []) in
+    let decl gp = (match gp_decl gp with Some d -> Some d | None -> None) in
+    let pfx = of_coq param_prefix in
+    let rec int_to_nat n = if n <= 0 then O else S (int_to_nat (n - 1)) in
+    let ix = List.concat (List.map2 (fun a b ->
+        match decl a, decl b with
+        | Some (k, n), Some (_, n') ->
+          let s' = of_coq n' in
+          let lp = String.length pfx in
+          if String.length s' > lp && String.sub s' 0 lp = pfx then
+            (match int_of_string_opt (String.sub s' lp (String.length s' - lp)) with
+             | Some i -> [ ((k, n), int_to_nat i) ]
+             | None -> [])
+          else []
+        | _ -> []) (gps orig) (gps canonical)) in
+    (match orig with
+     | Node (lb, [ Node (lg, g); tr; self; wh; items ]) ->
+       show_term (Node (lb, [ Node (lg, List.map (ren_gp ix) g); ren ix tr; ren ix self; ren ix wh; ren ix items ]))
+     | _ -> "badblock")
   | [ "wf"; s ] ->
     (match subs_of_term (parse_term s) with
      | None -> "nosubs"
